@@ -52,6 +52,8 @@ func Atoms(d Domain) []refdl.Atom {
 		}
 	}
 	out = append(out, refdl.A("z"))
+	// the same names with another arity: r/1 against the r/2 facts, p/2 against the p/1 facts
+	out = append(out, refdl.A("r", X), refdl.A("r", d.C0), refdl.A("p", X, Y), refdl.A("p", d.C0, X))
 	return out
 }
 
